@@ -42,7 +42,7 @@ func (s *refShard) oldest() string {
 
 func c11Sizes(r *hx.Run) []int {
 	sizes := []int{}
-	top := r.Pick(64, 300)
+	top := r.Pick(64, 1100)
 	for s := 1; s <= top; s++ {
 		sizes = append(sizes, s)
 	}
